@@ -107,6 +107,28 @@ example :
     filterApplies (.doc [("a.b", .doc [("$exists", .bool false)])]) (.doc [("a", .null)]) = .ok true := by
   decide +kernel
 
+/-- The empty field name is a field name (it was a scope limit of the model, and a defect of the
+    library: `{'': 1}` compared the whole document with `1`, so it missed `{'': 1}`).  Since the
+    repair every dot-separated component of a key, the empty one included, names a field: keys
+    like `''`, `'a.'`, `'.'`, `'a..b'` are inside D (the class `badkey` now only holds negative
+    array indexes), the matcher answers what the rules say, and the rules read `'a.'` as "the
+    field `''` inside `a`" — through arrays of sub-documents too. -/
+example :
+    inD (.doc [("", .int 2)]) (.doc [("", .int 2)]) = true ∧
+    filterApplies (.doc [("", .int 2)]) (.doc [("", .int 2)]) = .ok true ∧
+    specMatches (.doc [("", .int 2)]) (.doc [("", .int 2)]) = .ok true ∧
+    filterApplies (.doc [("", .int 2)]) (.doc [("a", .int 2)]) = .ok false ∧
+    inD (.doc [("a.", .doc [("$gt", .int 2)])])
+      (.doc [("a", .arr [.doc [("", .int 5)], .doc [("b", .int 7)]])]) = true ∧
+    filterApplies (.doc [("a.", .doc [("$gt", .int 2)])])
+      (.doc [("a", .arr [.doc [("", .int 5)], .doc [("b", .int 7)]])]) = .ok true ∧
+    inD (.doc [(".", .null)]) (.doc [("", .int 2)]) = true ∧
+    filterApplies (.doc [(".", .null)]) (.doc [("", .int 2)]) = .ok true ∧
+    inD (.doc [("a..b", .str "x")]) (.doc [("a", .doc [("", .doc [("b", .str "x")])])]) = true ∧
+    filterApplies (.doc [("a..b", .str "x")]) (.doc [("a", .doc [("", .doc [("b", .str "x")])])])
+      = .ok true := by
+  decide +kernel
+
 /-- `$elemMatch` stays outside D (a scope limit, no longer a known finding): its former witness
     `{c: {$elemMatch: {$size: 1}}}` on `{c: ["b", 2]}` went away with the `$size` repair. -/
 example :
@@ -157,7 +179,8 @@ theorem nor_is_neg_disj (qs : List Val) (d : Val) (bs : List Bool)
 /-- Path traversal: whenever the matcher follows a dotted path (it gives up only on a negative
     array index) it reaches exactly the values the rules say the path reaches — a branch that
     runs into null or a scalar counts as a missing field.  (False before the `deadend` repair:
-    `a.b` reached nothing in `{a: 5}`.) -/
+    `a.b` reached nothing in `{a: 5}`.)  The components are arbitrary strings: an empty one is a
+    field name like any other. -/
 theorem path_reaches_spec (ps : List String) (d : Val) (cs : List (Option Val))
     (h : cands ps d = .ok cs) : cs = reach ps d :=
   Proofs.C01.cands_eq_reach ps d cs h
@@ -170,6 +193,33 @@ example :
     (match cands ["a", "b"] (.doc [("a", .int 5)]) with
      | .ok cs => cs == [none]
      | .error _ => false) = true := by decide +kernel
+
+/-- The same for the key as the filter spells it — **every** key, no exclusion: the matcher
+    splits the key at its dots and each component, the empty one included, is a field name
+    (`''` is the field named `''`, `'a.'` the field `''` inside `a`, `'.'` the field `''` inside
+    the field `''`).  Before the repair "a filter looks the empty field name up like any other
+    field" the matcher ended the path at an empty remainder (`''` reached the document itself,
+    `'a.'` reached what `'a'` reaches) and the model gave no answer on such keys. -/
+theorem key_reaches_spec (key : String) (d : Val) (cs : List (Option Val))
+    (h : candsKey key d = .ok cs) : cs = reach (splitDots key) d :=
+  Proofs.C01.candsKey_eq_reach key d cs h
+
+example :
+    let reaches (key : String) (d : Val) (want : List (Option Val)) : Bool :=
+      match candsKey key d with
+      | .ok cs => cs == want
+      | .error _ => false
+    reaches "" (.doc [("", .int 1), ("a", .int 2)]) [some (.int 1)] = true ∧
+    reaches "" (.doc [("a", .int 2)]) [none] = true ∧
+    reaches "a." (.doc [("a", .arr [.doc [("", .int 3)], .doc [("", .arr [.int 4])], .int 7, .doc []])])
+      [some (.int 3), some (.arr [.int 4]), none] = true ∧
+    reaches "a.1." (.doc [("a", .arr [.int 0, .doc [("", .int 5)]])]) [some (.int 5)] = true ∧
+    reaches "." (.doc [("", .doc [("", .int 9)])]) [some (.int 9)] = true ∧
+    reaches "a..b" (.doc [("a", .int 5)]) [none] = true := by decide +kernel
+
+/-- On a document the empty key looks the field `''` up, and nothing else. -/
+theorem empty_key_is_a_field (fs : Fields) : candsKey "" (.doc fs) = .ok [dget "" fs] :=
+  Proofs.C01.candsKey_empty fs
 
 /-- Equality to null also matches a missing field. -/
 theorem null_eq_missing (key : String) (d : Val) (h : candsKey key d = .ok [none]) :
